@@ -822,6 +822,89 @@ func postC19(res *RunResult) {
 				}
 			}
 		}
+		// subfield rows of dynamic fields disabled on their own (nothing depends on a subfield row; main
+		// field and reference fields stay enabled, so the table is the bundled one): for a dynamic field
+		// whose subfields name two or more reference fields, the selection in which the last enabled
+		// subfield is the only one left that names its reference field; and random subsets
+		{
+			sheet := book.Sheets[1].Rows
+			enabledSub := func(j int) bool { c := strings.TrimSpace(cell(sheet[j], 15)); return c != "" && c != "0" }
+			type dyn struct {
+				name string
+				subs []int
+			}
+			var dyns, multi []dyn
+			for _, fr := range base {
+				if !fr.Enabled {
+					continue
+				}
+				d := dyn{name: fr.Msg + "." + fr.Name}
+				refs := map[string]bool{}
+				for j := fr.RowIdx + 1; j < len(sheet) && cell(sheet[j], 1) == "" && cell(sheet[j], 2) != ""; j++ {
+					if enabledSub(j) {
+						d.subs = append(d.subs, j)
+						refs[strings.TrimSpace(strings.Split(cell(sheet[j], 11), ",")[0])] = true
+					}
+				}
+				if len(d.subs) >= 2 {
+					dyns = append(dyns, d)
+					if len(refs) >= 2 {
+						multi = append(multi, d)
+					}
+				}
+			}
+			refOf := func(j int) string { return strings.TrimSpace(strings.Split(cell(sheet[j], 11), ",")[0]) }
+			nm := 1
+			if res.Tier == "thorough" {
+				nm = 6
+			}
+			for _, d := range multi {
+				first := refOf(d.subs[0])
+				var cand []int // subfields naming another reference field than the first one does
+				for _, j := range d.subs {
+					if refOf(j) != first {
+						cand = append(cand, j)
+					}
+				}
+				for v := 0; v < nm && len(cand) > 0; v++ {
+					keep := cand[r.intn(len(cand))]
+					var off []int
+					for _, j := range d.subs {
+						if j > keep || (j != keep && refOf(j) != first) {
+							off = append(off, j)
+						}
+					}
+					if vd, err := variantWorkbook(book, off); err == nil {
+						variants = append(variants, variant{name: fmt.Sprintf("subfield-rows(%s: last enabled subfield alone names %s,-%d rows)", d.name, refOf(keep), len(off)), data: vd, off: off})
+					} else {
+						res.Notes = append(res.Notes, "subfield variant construction failed for "+sdk+": "+err.Error())
+					}
+				}
+			}
+			nr := 1
+			if res.Tier == "thorough" {
+				nr = 8
+			}
+			for v := 0; v < nr && len(dyns) > 0; v++ {
+				var off []int
+				for _, d := range dyns {
+					if !r.chance(40) {
+						continue
+					}
+					for _, j := range d.subs {
+						if r.chance(50) {
+							off = append(off, j)
+						}
+					}
+				}
+				if len(off) == 0 {
+					off = []int{dyns[0].subs[len(dyns[0].subs)-1]}
+				}
+				if vd, err := variantWorkbook(book, off); err == nil {
+					variants = append(variants, variant{name: fmt.Sprintf("subfield-rows(random,-%d rows)", len(off)), data: vd, off: off})
+				}
+			}
+		}
 		variants = append(variants, variant{name: "bundled -hrst", data: data, hrst: true})
 		for vi, v := range variants {
 			label := sdk + "/" + v.name
